@@ -64,8 +64,21 @@ def run_part(ctx, cov, quick):
             rc = p.returncode
         except subprocess.TimeoutExpired:
             p.kill()
-            out, err = p.communicate()
-            rc = None
+            p.communicate()
+            # once more, alone, before anything is said about it (loaded machine)
+            time.sleep(4)                   # the commands of the killed run live 3 s at most
+            for fn in os.listdir(argv[-2]):
+                os.unlink(os.path.join(argv[-2], fn))
+            t0 = time.time()
+            p = subprocess.Popen(argv, stdout=subprocess.PIPE, stderr=subprocess.PIPE, stdin=subprocess.DEVNULL,
+                                 env={"PATH": "/usr/bin:/bin"}, cwd=ctx.scratch)
+            try:
+                out, err = p.communicate(timeout=120)
+                rc = p.returncode
+            except subprocess.TimeoutExpired:
+                p.kill()
+                out, err = p.communicate()
+                rc = None
         out, err = out.decode("latin-1"), err.decode("latin-1")
         seen = {}
         for l in out.splitlines():
@@ -111,14 +124,24 @@ CLOSED_RUNS = [
 ]
 
 
-def run_closed_one(ctx, exe, helper, run):
+def run_closed_one(ctx, exe, helper, run, limit=25):
+    """one run; a run that does not end within the limit is tried once more, alone and with a longer limit, before
+    anything is said about it (loaded machine)"""
+    case, offs = _run_closed_once(ctx, exe, helper, run, limit)
+    if case["rc"] is None and limit < 90:
+        case, offs = _run_closed_once(ctx, exe, helper, run, 90)
+        case["retried_after_timeout"] = True
+    return case, offs
+
+
+def _run_closed_once(ctx, exe, helper, run, limit):
     fan, hosts, nlines = run
     argv = [exe, "-R", "exec", "-f", str(fan), "-w", ",".join(hosts), helper, "%h", str(nlines)]
     t0 = time.time()
     p = subprocess.Popen(argv, stdout=subprocess.PIPE, stderr=subprocess.PIPE, env={"PATH": "/usr/bin:/bin"},
                          cwd=ctx.scratch, close_fds=True, preexec_fn=lambda: os.close(0))
     try:
-        out, err = p.communicate(timeout=25)
+        out, err = p.communicate(timeout=limit)
         rc = p.returncode
     except subprocess.TimeoutExpired:
         p.kill()
@@ -135,7 +158,7 @@ def run_closed_one(ctx, exe, helper, run):
     offs = []
     if rc is None:
         offs.append(("real:closed-stdin:no-termination", "pdsh -R exec -f %d started with stdin closed did not end within "
-                     "25 s; relayed so far per host (lines, end marker): %s" % (fan, per)))
+                     "%d s; relayed so far per host (lines, end marker): %s" % (fan, limit, per)))
     else:
         bad = {h: v for h, v in per.items() if v != (nlines, 1)}
         if bad:
